@@ -267,4 +267,33 @@ theorem unacceptable_stream_type_rejected (w : World) (t : TConf) (r : Req) (c :
   · simp at h
   · simp [hs] at h
 
+
+/-- **A request in a codec the transcoder does not know is never validated** (unsupported codec: 415, no dispatch):
+    every validated operation has a known client codec. -/
+theorem validated_codec_known (w : World) (t : TConf) (r : Req) (o : Op) (hv : validate w t r = .ok o) :
+    w.knownCodec o.ccodec = true := by
+  unfold validate at hv
+  split at hv
+  · simp at hv
+  · split at hv
+    · simp at hv
+    · split at hv
+      · simp at hv
+      · split at hv
+        · simp at hv
+        · split at hv
+          · simp at hv
+          · split at hv
+            · simp at hv
+            · split at hv
+              · simp at hv
+              · rename_i rm h' hex
+                simp only at hv
+                repeat' split at hv
+                all_goals first
+                  | (simp at hv; done)
+                  | (simp only [Except.ok.injEq] at hv
+                     rw [← hv]
+                     simp_all)
+
 end Vanguard.C18
